@@ -610,3 +610,57 @@ class HookWrittenVolume(Harness):
 
 class C04_HookWrittenVolume(HookWrittenVolume):
     pass
+
+
+class LifetimeInRun(Harness):
+    """time-to-live through sessions of a real run: an order whose last step lies inside a session without order
+    placement (or without execution) is gone when trading resumes."""
+    name = "LifetimeInRun"
+    title = "order lifetime across sessions with and without placement / execution (real SequentialRunner)"
+    what_symbolic = "the time-to-live of the resting order (1..4), activation order; the session layout is the case split"
+    nontrivial_event = "the resting order expired inside the middle session, or was filled after it"
+    reach = ("nontrivial", "expired-in-middle-session", "filled-after-middle-session")
+    bounds = {"quick": "sessions of 2 + 2 + 2 steps, the middle one without placement and/or without execution; a buy order "
+                       "with ttl in [1,4] accepted at t=1, a crossing sell at t=4 (first step of the last session) or t=5",
+              "thorough": "same"}
+    assumptions = (rn.REDUCTION_NOTE,)
+    agreement_runs = 4
+
+    def cases(self, tier):
+        return [{"mid": [p, e], "sell_at": s} for p, e in ((False, True), (False, False), (True, False)) for s in (4, 5)]
+
+    def run(self, g, case):
+        sessions = [rn.session(0, 2, True, True, maxNormalOrders=2),
+                    rn.session(1, 2, case["mid"][0], case["mid"][1], maxNormalOrders=2),
+                    rn.session(2, 2, True, True, maxNormalOrders=2)]
+        st = rn.base_settings(n_agents=2, sessions=sessions)
+        menu = {"vol_fixed": 1, "price_fixed": 300, "acts": ["limit"], "ttl": ["sym"], "ttl_hi": 4,
+                "per_agent": {"0": {"side": "B", "active": [1, 1]}, "1": {"side": "S", "active": [case["sell_at"]] * 2}}}
+        ctx = rn.make_run(g, st, menu)
+        ctx.runner._run()
+        accepted = {}
+        for kind, aid, p in ctx.events:
+            if kind == "submitted":
+                accepted[p.order_id] = p
+        exp_seen = set()
+        for kind, aid, p in ctx.events:
+            if kind in ("log-write", "log-direct") and isinstance(p, ExpirationLog) and id(p) not in exp_seen:
+                exp_seen.add(id(p))
+                o = accepted[p.order_id]
+                g.require(p.time == o.time + o.ttl + 1, "C04.expiry-at-wrong-time",
+                          f"order {p.order_id} accepted at t={o.time} with ttl {o.ttl} reported expired at t={p.time}")
+                if bool(sand(p.time >= 2, p.time <= 4)):
+                    g.note("expired-in-middle-session")
+                    g.note("nontrivial")
+            if kind == "log-write" and isinstance(p, ExecutionLog):
+                for oid in (p.buy_order_id, p.sell_order_id):
+                    o = accepted[oid]
+                    if o.ttl is not None:
+                        g.require(p.time <= o.time + o.ttl, "C04.fill-after-ttl",
+                                  f"order {oid} accepted at t={o.time} with ttl {o.ttl} was filled at t={p.time}")
+                g.note("filled-after-middle-session")
+                g.note("nontrivial")
+
+
+class C04_LifetimeInRun(LifetimeInRun):
+    pass
